@@ -1209,6 +1209,44 @@ def fam_clim(ctx, mods, r, k, cid):
     case = {"T": T, "N": N, "time_cycle": tc, "winter_only": bool(winter),
             "anomalies": bool(anomalies_flag), "tags": tags,
             "obs": obs if obs.size <= 60 else None}
+    # two-layer Pearson network: the columns split into two data sets
+    if N >= 3 and not winter and not anomalies_flag:
+        from pyunicorn.climate import CoupledTsonisClimateNetwork as CT
+        n1 = int(r.integers(1, N))
+        Rp = ref.pearson_matrix(A)
+        if not np.isnan(Rp).any():
+            def ctb():
+                d1 = make_climate_data(mods, obs[:, :n1], lat[:n1], lon[:n1],
+                                       tc)
+                d2 = make_climate_data(mods, obs[:, n1:], lat[n1:], lon[n1:],
+                                       tc)
+                return CT(d1, d2, threshold=0.3,
+                          silence_level=3)
+            ok, ct = ctx.call(ctb)
+            ctx.evals()
+            if not ok:
+                ctx.violation("CoupledTsonisClimateNetwork.__init__:raises:"
+                              f"{type(ct).__name__}",
+                              {**case, "exc": repr(ct)[:300]}, cid)
+            else:
+                ok1, c1 = ctx.call(ct.correlation)
+                ok2, c2 = ctx.call(ct.calculate_similarity_measure,
+                                   A[:, :n1].copy(), A[:, n1:].copy())
+                ctx.evals(2)
+                ctx.count("clim_coupled_tsonis_compared")
+                for nm, okx, cx, want in (
+                        ("correlation", ok1, c1, np.abs(Rp)),
+                        ("calculate_similarity_measure", ok2, c2, Rp)):
+                    if not okx:
+                        ctx.violation(f"CoupledTsonisClimateNetwork.{nm}:"
+                                      f"raises:{type(cx).__name__}",
+                                      {**case, "exc": repr(cx)}, cid)
+                        continue
+                    nbad, mx, idx = worst(cx, want, TOL_R)
+                    if nbad:
+                        ctx.violation(f"CoupledTsonisClimateNetwork.{nm}:"
+                                      "differs", {**case, "n1": n1, "at": idx},
+                                      cid)
     for kind in ("Tsonis", "Spearman", "PartialCorrelation", "MutualInfo"):
         cname = f"{kind}ClimateNetwork"
         R, tol, tag = clim_reference(kind, A)
